@@ -292,6 +292,21 @@ def _setup_import_path():
         sys.path.insert(0, ROOT)
 
 
+def _exit_with_parent():
+    """Workers must not outlive a killed parent (an orphaned worker stuck in a non-terminating case burns a core)."""
+    import threading
+
+    parent = os.getppid()
+
+    def watch():
+        while True:
+            time.sleep(2)
+            if os.getppid() != parent:
+                os._exit(3)
+
+    threading.Thread(target=watch, daemon=True).start()
+
+
 def _worker_init(prop_id, assertions):
     os.environ["ANYTREE_ASSERTIONS"] = "1" if assertions else "0"
     os.environ.setdefault("PYTHONHASHSEED", "0")
@@ -301,6 +316,7 @@ def _worker_init(prop_id, assertions):
     import signal
 
     signal.signal(signal.SIGALRM, _on_alarm)
+    _exit_with_parent()
     try:  # a runaway case gets MemoryError instead of taking the machine down
         limit = int(os.environ.get("VERIF_MEM_LIMIT_MB", "6000")) * 1024 * 1024
         resource.setrlimit(resource.RLIMIT_AS, (limit, limit))
@@ -340,20 +356,33 @@ def run_tasks(prop_id, tasks, total):
         groups.setdefault(int(task.get("assertions", 0)), []).append(task)
     import concurrent.futures as cf
 
+    import threading
+
     ctx = multiprocessing.get_context("spawn")
-    for assertions, group in groups.items():
-        nproc = max(1, min(NPROC, len(group)))
+    lock = threading.Lock()
+
+    def run_group(assertions, group):
+        # the groups (one per ANYTREE_ASSERTIONS setting) run side by side, each in its own pool of worker processes
+        nproc = max(1, min(NPROC if len(groups) == 1 else (NPROC * 3) // 4, len(group)))
         with cf.ProcessPoolExecutor(nproc, mp_context=ctx, initializer=_worker_init, initargs=(prop_id, assertions)) as pool:
-            futures = {pool.submit(_worker_run, task): task for task in group}
+            futures = {pool.submit(_worker_run, task): task for task in sorted(group, key=lambda t: -int(t.get("weight", 1)))}
             for fut in cf.as_completed(futures):
                 try:
                     res = fut.result()
                 except Exception as exc:  # noqa: BLE001 - e.g. BrokenProcessPool when a worker died
-                    total.errors.append((futures[fut], "worker failed: %s: %s" % (type(exc).__name__, exc)))
+                    with lock:
+                        total.errors.append((futures[fut], "worker failed: %s: %s" % (type(exc).__name__, exc)))
                     continue
-                total.merge(res["part"])
-                if res["error"]:
-                    total.errors.append((res["task"], res["error"]))
+                with lock:
+                    total.merge(res["part"])
+                    if res["error"]:
+                        total.errors.append((res["task"], res["error"]))
+
+    threads = [threading.Thread(target=run_group, args=(a, g)) for a, g in groups.items()]
+    for th in threads:
+        th.start()
+    for th in threads:
+        th.join()
 
 
 def run_single(prop_id, assertions, func):
